@@ -162,6 +162,9 @@ func formatYAML(c *scen.Call) CallText {
 		}
 	}
 	failing, effective := judgeMatchers(c.Matchers, deepNormalize(parsed), "$.")
+	if len(failing) == 1 && failing[0].Kind == "unmodelled" {
+		return CallText{Status: StUnknown}
+	}
 	if len(failing) > 0 {
 		return CallText{Status: StMatcherFail, Failing: failing}
 	}
@@ -261,6 +264,25 @@ func deepNormalize(v any) any {
 	}
 }
 
+// throughScalar: some proper prefix of the path exists and is not a mapping.
+func throughScalar(doc any, path string) bool {
+	cur := doc
+	segs := strings.Split(path, ".")
+	for _, seg := range segs[:len(segs)-1] {
+		m, ok := cur.(map[string]any)
+		if !ok {
+			return true
+		}
+		next, ok := m[seg]
+		if !ok {
+			return false
+		}
+		cur = next
+	}
+	_, isMap := cur.(map[string]any)
+	return !isMap
+}
+
 func setPath(doc any, path string, val any) {
 	segs := strings.Split(path, ".")
 	cur := doc
@@ -286,6 +308,11 @@ func judgeMatchers(ms []scen.MatcherSpec, doc any, prefix string) (failing, effe
 	for _, m := range ms {
 		path := strings.TrimPrefix(m.Path, prefix)
 		v, ok := lookup(doc, path)
+		if !ok && prefix != "" && throughScalar(doc, path) {
+			// YAML: a path that descends into a scalar is an error of its own kind, not
+			// "path does not exist" - not modelled
+			return []scen.MatcherSpec{{Kind: "unmodelled"}}, nil
+		}
 		if !ok {
 			if !m.NoErrMiss {
 				failing = append(failing, m)
